@@ -146,15 +146,70 @@ def objectOutputs (wsize : Nat) (reset : Bool) : ZObj → List (List Blk) → Op
       | none => none
       | some outs => some (out :: outs)
 
-/-- what RFC 7692 §7.2.2 asks for: every message is inflated on its own, only the LZ77 window
-    is carried over (a BFINAL=1 block ends the *message's* DEFLATE data, §7.2.3.4, not the context) -/
+/-- every block of the list in turn, BFINAL or not: (window afterwards, emitted newest first).
+    A BFINAL=1 block ends a *deflate stream*; per RFC 7692 §7.2.3.4 such blocks may occur in a
+    message, and what follows belongs to the message all the same, with the same LZ77 window. -/
+def inflBlocksAll (wsize : Nat) : Bytes → List Blk → Option (Bytes × Bytes)
+  | win, [] => some (win, [])
+  | win, b :: bs =>
+    match inflTokens wsize win b.toks with
+    | none => none
+    | some (w', e) =>
+      match inflBlocksAll wsize w' bs with
+      | none => none
+      | some (w'', e') => some (w'', e' ++ e)
+
+/-- what RFC 7692 §7.2.2 asks for: every message is inflated on its own — all of its DEFLATE
+    blocks — and only the LZ77 window is carried over (a BFINAL=1 block, §7.2.3.4, ends a deflate
+    stream, not the message and not the context) -/
 def rfcOutputs (wsize : Nat) (reset : Bool) : Bytes → List (List Blk) → Option (List Bytes)
   | _, [] => some []
   | win, m :: rest =>
-    match inflBlocks wsize win (unstrip m) with
+    match inflBlocksAll wsize win (unstrip m) with
     | none => none
-    | some (w', e, _) =>
+    | some (w', e) =>
       match rfcOutputs wsize reset (if reset then [] else w') rest with
+      | none => none
+      | some outs => some (e.reverse :: outs)
+
+/-! #### the repaired `Deflate.decompress` (fix of D6) -/
+
+/-- one zlib object started with window `win`: the blocks up to and including the first
+    BFINAL=1 block; the blocks after it are its `unused_data` -/
+def inflStream (wsize : Nat) : Bytes → List Blk → Option (Bytes × Bytes × List Blk)
+  | win, [] => some (win, [], [])
+  | win, b :: bs =>
+    match inflTokens wsize win b.toks with
+    | none => none
+    | some (w', e) =>
+      if b.final then some (w', e, bs)
+      else
+        match inflStream wsize w' bs with
+        | none => none
+        | some (w'', e', rest) => some (w'', e' ++ e, rest)
+
+/-- `Deflate._inflate`: feed the object; while it leaves `unused_data`, replace it by a new object
+    primed with the most recent `wsize` bytes of output and feed that the remainder -/
+def repairedFeed (wsize : Nat) : Nat → Bytes → List Blk → Option (Bytes × Bytes)
+  | 0, win, _ => some (win, [])
+  | fuel + 1, win, bs =>
+    match inflStream wsize win bs with
+    | none => none
+    | some (w', e, []) => some (w', e)
+    | some (w', e, r :: rest) =>
+      match repairedFeed wsize fuel w' (r :: rest) with
+      | none => none
+      | some (w'', e') => some (w'', e' ++ e)
+
+/-- the repaired `Deflate.decompress` over a message history (an object that ended exactly at the
+    end of a message is replaced, primed with the same window, at the next feed) -/
+def repairedOutputs (wsize : Nat) (reset : Bool) : Bytes → List (List Blk) → Option (List Bytes)
+  | _, [] => some []
+  | win, m :: rest =>
+    match repairedFeed wsize ((unstrip m).length + 1) win (unstrip m) with
+    | none => none
+    | some (w', e) =>
+      match repairedOutputs wsize reset (if reset then [] else w') rest with
       | none => none
       | some outs => some (e.reverse :: outs)
 
@@ -168,6 +223,19 @@ def wholeOutputs (wsize : Nat) (reset : Bool) : List Blk → Nat → List (List 
     | some (_, e, _) =>
       match (if reset then wholeOutputs wsize reset [] 0 rest
              else wholeOutputs wsize reset (hist ++ unstrip m) e.length rest) with
+      | none => none
+      | some outs => some (e.reverse.drop done :: outs)
+
+/-- the core model's formulation with the inflater of the repaired code (`Inflate.inflateAllSafe`:
+    a BFINAL=1 block does not end the history) -/
+def wholeOutputsSafe (wsize : Nat) (reset : Bool) : List Blk → Nat → List (List Blk) → Option (List Bytes)
+  | _, _, [] => some []
+  | hist, done, m :: rest =>
+    match inflBlocksAll wsize [] (hist ++ unstrip m) with
+    | none => none
+    | some (_, e) =>
+      match (if reset then wholeOutputsSafe wsize reset [] 0 rest
+             else wholeOutputsSafe wsize reset (hist ++ unstrip m) e.length rest) with
       | none => none
       | some outs => some (e.reverse.drop done :: outs)
 
